@@ -510,6 +510,10 @@ def run(scen):
     W.set_current(w)
     trace = Trace()
     trace.world = w
+    # other WebSocket objects of the same process (constructed, given their
+    # own custom headers, never connected): nothing of theirs may show up in
+    # the connection under test
+    trace.others = [_make_ws(o) for o in scen.get('other_objects') or []]
     ws = _make_ws(scen)
     trace.ws = ws
     app = App(scen.get('app'), trace, w)
